@@ -131,3 +131,13 @@ Check (C11_capacity_only_delays :
     map (fun x => (lcore (fst (fst x)), snd (fst x))) (fst (lrun c cap1 linit gs)) =
     map (fun x => (lcore (fst (fst x)), snd (fst x))) (fst (lrun c cap2 linit gs)) /\
     snd (lrun c cap1 linit gs) = snd (lrun c cap2 linit gs)).
+Check (C11_gate_is_newest_sink :
+  forall (c : cfg) (s : st) (p : peer),
+    reachable c s -> hopen s p = true -> hsink s p = lastt s p /\ lastt s p <> None).
+Check (C11_lazy_queue_lifecycle_only :
+  forall (c : cfg) (cap : nat) (gs : list lop) (x : lst * list uev * list call),
+    In x (fst (lrun c cap linit gs)) -> Forall not_notif (lq (fst (fst x)))).
+Check (C11_lazy_notification_in_its_period :
+  forall (c : cfg) (cap : nat) (l l' : lst) (ev : list uev) (cl : list call) (p : peer),
+    Forall not_notif (lq l) -> lstep c cap l LPoll = Some (l', ev, cl) -> In (UNotif p) ev ->
+    lq l = [] /\ exists k, In (p, k) (lnf l) /\ hopen (ls l) p = true /\ hsink (ls l) p = Some k).
